@@ -413,8 +413,43 @@ def _proxy_shape(ctx: Ctx, rs: RuleSet):
   rs.declare(rule, 'proxy class derives from exactly the original class; '
              '__str__ starts with str(original); fallback returns original', 4)
   mk = ctx.func('fiddle._src.reraised_exception.make_exception_class')
+  entry = mk
   if len(mk.classes) != 1:
-    raise AnalysisError('make_exception_class no longer defines one class')
+    # the class may be made by a helper the (caching) entry point calls with
+    # its own parameter
+    cands = []
+    for c in ctx.calls(mk):
+      h = p.funcs.get(p.resolve(c.func, mk) or '')
+      if h is not None and not h.is_lambda and len(h.classes) == 1 and len(
+          c.args) == 1 and unparse(c.args[0]) == mk.params[0] and h.params:
+        cands.append(h)
+    if len(cands) != 1:
+      raise AnalysisError('make_exception_class no longer defines one class')
+    mk = cands[0]
+  # a table of proxy classes kept by the entry point is keyed by the exception
+  # class itself: two classes never share a proxy
+  ep = entry.params[0]
+  for n in walk_function(entry.node):
+    key = tbl = None
+    if isinstance(n, ast.Subscript) and isinstance(n.value, ast.Name):
+      tbl, key = n.value, n.slice
+    elif isinstance(n, ast.Call) and isinstance(
+        n.func, ast.Attribute) and n.func.attr in (
+            'get', 'setdefault', 'pop') and isinstance(
+                n.func.value, ast.Name) and n.args:
+      tbl, key = n.func.value, n.args[0]
+    if tbl is None or tbl.id in entry.local_names() or (
+        tbl.id not in entry.module.assigns):
+      continue
+    kd = roles.deref(entry, key)
+    ok_key = isinstance(kd, ast.Name) and kd.id == ep
+    rs.check(ok_key, rule, f'{entry.qualname}:cache-key',
+             f'`{tbl.id}` is keyed by the exception class itself' if ok_key else
+             f'`{tbl.id}` is keyed by `{unparse(kd)[:60]}`, not by the '
+             'exception class: two different classes with the same key share '
+             'one proxy class, so an error escapes build as an instance of '
+             'another class than the one that was raised (`except` clauses for '
+             'the raised class no longer match)', ctx.loc(entry, n))
   pc = next(iter(mk.classes.values()))
   param = mk.params[0]
   bases = pc.node.bases
